@@ -381,7 +381,7 @@ func (e *GasEnv) BulkGas(seed int64, g, n int) (map[string]interface{}, error) {
 			default:
 			}
 			lastK = 1 + r.Intn(MaxK)
-			e.Factory.GasScheduleChange(Schedule(lastK))
+			e.Reprice(lastK, r.Intn(3) == 0)
 			if r.Intn(3) == 0 {
 				yield()
 			}
